@@ -350,7 +350,12 @@ func runC08(e *Env) {
 	step := e.Pick(8, 1)
 	off := r.Intn(step)
 	for _, side := range []string{"m1", "m2"} {
-		for b := off; b < 400; b += step {
+		// every bit of the two header bytes (version, role) in both tiers; the
+		// nonce and MAC bits are sampled in quick and complete in thorough
+		for b := 0; b < 16; b++ {
+			alts = append(alts, alt{side: side, bit: b})
+		}
+		for b := 16 + off; b < 400; b += step {
 			alts = append(alts, alt{side: side, bit: b})
 		}
 		for c := 0; c < 50; c += e.Pick(5, 1) {
